@@ -23,10 +23,14 @@ EXTENDS Naturals, Sequences, FiniteSets, TLC
 CONSTANTS N,          \* blob length in data units
           STREAMS,    \* set of unit sequences the peer may send (honest streams and the misbehaviour catalogue)
           KNOWN,      \* set of BOOLEAN: is the blob length known to the client before the request
-          HEADERGATE  \* TRUE: once the response future is done every further byte is blob data (the repaired rule);
+          HEADERGATE, \* TRUE: once the response future is done every further byte is blob data (the repaired rule);
                       \* FALSE: only once a first blob byte has been counted (the rule in the code as found)
+          PERCONN     \* TRUE: a length learnt from the peer's header is expected on THIS connection's writer only and
+                      \* reaches the shared blob object when the bytes have verified (the repaired code);
+                      \* FALSE: the header's length is written to the shared blob object at once (the code as found)
 VARIABLES stream, pos,             \* what the peer sends and how much of it has been delivered
           known, blen,             \* was the length known; the length the blob object now believes (0 = unknown)
+          wlen,                    \* the length this connection's writer expects when the blob's is unknown (0 = none)
           resp,                    \* _response_fut: "pending" | "done" | "cancelled" | "exc"
           respkind,                \* which response fired the future
           buf,                     \* self.buf (units not yet recognised)
@@ -37,7 +41,7 @@ VARIABLES stream, pos,             \* what the peer sends and how much of it has
           closed,                  \* the client closed the connection
           raised,                  \* an exception escaped data_received
           task                     \* _download_blob: "wait_resp" | "wait_writer" | "ok" | "failed"
-vars == <<stream, pos, known, blen, resp, respkind, buf, received, wopen, sofar, allgood, wfut, verified, closed, raised, task>>
+vars == <<stream, pos, known, blen, wlen, resp, respkind, buf, received, wopen, sofar, allgood, wfut, verified, closed, raised, task>>
 
 Resp == {"H", "Hlen", "Hhash", "Herr", "L1", "L2"}        \* units that parse as a complete response on their own
 DataGood == {"D", "L1", "L2"}                              \* correct content
@@ -46,7 +50,7 @@ WRONG == N + 1
 AnnLen(u) == IF u = "Hlen" THEN WRONG ELSE N
 
 Init == /\ stream \in STREAMS /\ pos = 0 /\ known \in KNOWN
-        /\ blen = IF known THEN N ELSE 0
+        /\ blen = (IF known THEN N ELSE 0) /\ wlen = 0
         /\ resp = "pending" /\ respkind = "none" /\ buf = <<>> /\ received = 0
         /\ wopen = TRUE /\ sofar = 0 /\ allgood = TRUE /\ wfut = "pending"
         /\ verified = FALSE /\ closed = FALSE /\ raised = FALSE /\ task = "wait_resp"
@@ -74,6 +78,7 @@ WriteWith(q, bl) ==
   IN /\ received' = received + Len(capped)
      /\ sofar' = f.sofar /\ allgood' = f.allgood /\ wfut' = f.wfut /\ wopen' = f.wopen
 
+Exp == IF blen # 0 THEN blen ELSE wlen       \* writer.get_length()
 DataPath == wopen /\ (received > 0 \/ (HEADERGATE /\ resp = "done"))
 \* an exception escaping data_received is a fatal transport error: asyncio closes the connection (connection_lost -> close())
 Fatal == /\ raised' = TRUE /\ closed' = TRUE /\ wopen' = FALSE
@@ -82,29 +87,32 @@ Fatal == /\ raised' = TRUE /\ closed' = TRUE /\ wopen' = FALSE
 
 \* ---- data_received(chunk)
 Receive(chunk) ==
-  IF closed THEN UNCHANGED <<known, blen, resp, respkind, buf, received, wopen, sofar, allgood, wfut, verified, closed, raised, task>>
+  IF closed THEN UNCHANGED <<known, blen, wlen, resp, respkind, buf, received, wopen, sofar, allgood, wfut, verified, closed, raised, task>>
   ELSE IF DataPath THEN
-       /\ WriteWith(chunk, blen)
-       /\ UNCHANGED <<known, blen, resp, respkind, buf, verified, closed, raised, task>>
+       /\ WriteWith(chunk, Exp)
+       /\ UNCHANGED <<known, blen, wlen, resp, respkind, buf, verified, closed, raised, task>>
   ELSE LET p == Parse(buf \o chunk) IN
        IF p.r = "none" /\ resp # "done"
        THEN /\ buf' = buf \o chunk          \* keep waiting for a complete response
-            /\ UNCHANGED <<known, blen, resp, respkind, received, wopen, sofar, allgood, wfut, verified, closed, raised, task>>
+            /\ UNCHANGED <<known, blen, wlen, resp, respkind, received, wopen, sofar, allgood, wfut, verified, closed, raised, task>>
        ELSE IF p.r = "none"
        THEN \* response already fired, bytes are payload
             /\ buf' = <<>>
             /\ IF wopen /\ p.extra # <<>>
-               THEN IF blen = 0 THEN Fatal /\ UNCHANGED <<received, sofar, allgood>>      \* None - int: TypeError
-                    ELSE WriteWith(p.extra, blen) /\ UNCHANGED <<resp, closed, raised>>
+               THEN IF Exp = 0 THEN Fatal /\ UNCHANGED <<received, sofar, allgood>>      \* None - int: TypeError
+                    ELSE WriteWith(p.extra, Exp) /\ UNCHANGED <<resp, closed, raised>>
                ELSE UNCHANGED <<received, sofar, allgood, wfut, wopen, resp, closed, raised>>
-            /\ UNCHANGED <<known, blen, respkind, verified, task>>
+            /\ UNCHANGED <<known, blen, wlen, respkind, verified, task>>
        ELSE \* a response was recognised
             /\ buf' = <<>>
             /\ IF p.r \in {"Hhash", "L2"}
                THEN \* "started sending a blob we didn't request": the whole call returns, its bytes are dropped
-                    UNCHANGED <<known, blen, resp, respkind, received, wopen, sofar, allgood, wfut, verified, closed, raised, task>>
-               ELSE LET bl == IF p.r \in {"H", "Hlen"} /\ blen = 0 THEN AnnLen(p.r) ELSE blen IN     \* set_length only if unknown
-                    /\ blen' = bl
+                    UNCHANGED <<known, blen, wlen, resp, respkind, received, wopen, sofar, allgood, wfut, verified, closed, raised, task>>
+               ELSE LET learnt == p.r \in {"H", "Hlen"} /\ blen = 0          \* only if the blob's length is unknown
+                        bl == IF learnt THEN AnnLen(p.r) ELSE Exp             \* what the writer expects from now on
+                    IN
+                    /\ blen' = IF learnt /\ ~PERCONN THEN AnnLen(p.r) ELSE blen
+                    /\ wlen' = IF learnt /\ PERCONN THEN AnnLen(p.r) ELSE wlen
                     /\ IF resp = "done"
                        THEN \* set_result on a finished future: InvalidStateError escapes data_received
                             /\ Fatal /\ UNCHANGED <<known, respkind, received, sofar, allgood, verified, task>>
@@ -129,27 +137,28 @@ OnResponse ==
   /\ task = "wait_resp" /\ resp = "done" /\ ~closed
   /\ IF respkind \in {"Herr", "L1"} \/ (respkind \in {"H", "Hlen"} /\ known /\ AnnLen(respkind) # N)
      THEN /\ task' = "failed" /\ Close          \* no blob offered / unexpected length
-          /\ UNCHANGED <<stream, pos, known, blen, respkind, buf, received, sofar, allgood, verified, raised>>
+          /\ UNCHANGED <<stream, pos, known, blen, wlen, respkind, buf, received, sofar, allgood, verified, raised>>
      ELSE /\ task' = "wait_writer"
-          /\ UNCHANGED <<stream, pos, known, blen, resp, respkind, buf, received, wopen, sofar, allgood, wfut, verified, closed, raised>>
+          /\ UNCHANGED <<stream, pos, known, blen, wlen, resp, respkind, buf, received, wopen, sofar, allgood, wfut, verified, closed, raised>>
 \* ---- the writer finished
 OnWriter ==
   /\ task = "wait_writer" /\ wfut \in {"result", "exc"} /\ ~closed
   /\ IF wfut = "result"
      THEN /\ verified' = TRUE /\ task' = "ok"
-          /\ UNCHANGED <<stream, pos, known, blen, resp, respkind, buf, received, wopen, sofar, allgood, wfut, closed, raised>>
+          /\ blen' = IF blen = 0 THEN sofar ELSE blen          \* save_verified_blob: the verified bytes settle the length
+          /\ UNCHANGED <<stream, pos, known, wlen, resp, respkind, buf, received, wopen, sofar, allgood, wfut, closed, raised>>
      ELSE /\ task' = "failed" /\ Close /\ verified' = verified
-          /\ UNCHANGED <<stream, pos, known, blen, respkind, buf, received, sofar, allgood, raised>>
+          /\ UNCHANGED <<stream, pos, known, blen, wlen, respkind, buf, received, sofar, allgood, raised>>
 \* ---- the peer is silent: peer_timeout expires
 Silent == pos = Len(stream)
 Timeout1 == /\ task = "wait_resp" /\ resp = "pending" /\ Silent /\ ~closed /\ task' = "failed" /\ Close
-            /\ UNCHANGED <<stream, pos, known, blen, respkind, buf, received, sofar, allgood, verified, raised>>
+            /\ UNCHANGED <<stream, pos, known, blen, wlen, respkind, buf, received, sofar, allgood, verified, raised>>
 Timeout2 == /\ task = "wait_writer" /\ wfut = "pending" /\ Silent /\ ~closed /\ task' = "failed" /\ Close
-            /\ UNCHANGED <<stream, pos, known, blen, respkind, buf, received, sofar, allgood, verified, raised>>
+            /\ UNCHANGED <<stream, pos, known, blen, wlen, respkind, buf, received, sofar, allgood, verified, raised>>
 
 \* ---- the connection was closed under the waiting task (fatal error / close()): the await ends with CancelledError
 OnClosed == /\ task \in {"wait_resp", "wait_writer"} /\ closed /\ task' = "failed"
-            /\ UNCHANGED <<stream, pos, known, blen, resp, respkind, buf, received, wopen, sofar, allgood, wfut, verified, closed, raised>>
+            /\ UNCHANGED <<stream, pos, known, blen, wlen, resp, respkind, buf, received, wopen, sofar, allgood, wfut, verified, closed, raised>>
 
 Next == (\E k \in 1..4 : Deliver(k)) \/ OnResponse \/ OnWriter \/ Timeout1 \/ Timeout2 \/ OnClosed
 Spec == Init /\ [][Next]_vars /\ WF_vars(Next)
@@ -168,5 +177,6 @@ HonestCompletes == (Honest(stream) /\ Stuck) => (task = "ok" /\ verified)
 Terminates == Stuck => Finished
 ClosedOnFailure == task = "failed" => closed
 \* a wrong announced length must not outlive the connection on a blob whose length was unknown
+\* (holds with PERCONN; the code as found, PERCONN = FALSE, violates it: negative control)
 NoLengthPoison == (task = "failed" /\ ~known) => blen \in {0, N}
 =============================================================================
